@@ -86,6 +86,16 @@ def tree_event(sim, name, extra=None):
     return e, notes
 
 
+RESOLVER_CALLS = []
+
+
+def resolver(sp, c):
+    # every particle has radius 0 and the lattice keeps them apart: nothing ever collides, so any call names a particle that
+    # should not take part in the search (e.g. one that was flagged for removal)
+    RESOLVER_CALLS.append((c.p1, c.p2))
+    return 0
+
+
 def make(cfg, rng, n):
     W, NR = cfg["W"], cfg["NR"]
     sim = rebound.Simulation()
@@ -96,10 +106,10 @@ def make(cfg, rng, n):
     sim.boundary = cfg["BType"]
     if cfg["UseTree"]:
         # the tree serves gravity, a collision search, or both (particles have radius 0: the searches never report anything)
-        variant = rng.choice(["g", "gc", "c", "lc"])
-        sim.gravity = "tree" if variant in ("g", "gc") else "none"
-        sim.collision = {"g": "none", "gc": "tree", "c": "tree", "lc": "linetree"}[variant]
-        sim.collision_resolve = lambda s, c: 0
+        variant = rng.choice(["g", "gc", "c", "lc", "gd", "gl"])
+        sim.gravity = "tree" if variant in ("g", "gc", "gd", "gl") else "none"
+        sim.collision = {"g": "none", "gc": "tree", "c": "tree", "lc": "linetree", "gd": "direct", "gl": "line"}[variant]
+        sim.collision_resolve = resolver
     else:
         sim.gravity = "none"
     if cfg["BType"] == "shear":
@@ -196,7 +206,7 @@ def main():
                     else:
                         import pickle
                         sim = pickle.loads(pickle.dumps(sim))
-                    sim.collision_resolve = lambda s_, c_: 0
+                    sim.collision_resolve = resolver
                 if manual:
                     half_drift(sim)
                     ev.append({"a": "drift"})
@@ -254,9 +264,30 @@ def main():
                     e, notes = tree_event(sim, "step")
                     ev.append(e)
                     allnotes += notes
+                if RESOLVER_CALLS:
+                    allnotes.append("collision resolver called for pairs %s although no two particles touch (gravity %s, collision %s)" % (RESOLVER_CALLS[:3], sim.gravity, sim.collision))
+                    del RESOLVER_CALLS[:]
                 if sim.N == 0:
                     break
             fh.write(json.dumps({"parts": parts0, "t0": t0, "events": ev, "mode": "manual" if manual else "step", "n": n}) + "\n")
+            # after the trace (not part of it: the positions leave the lattice): a change of frame with a tree in use and a periodic / sheared box
+            # keeps every particle -- count unchanged, everybody inside the box, every particle in exactly one leaf
+            if (tree and not failed and sim.N > 1 and cfg["BType"] in ("periodic", "shear") and t % 3 == 0
+                    and not any(math.isnan(sim.particles[i].y) for i in range(sim.N))):       # (no particle waiting to be dropped by the next tree update)
+                hashes0 = sorted(int(sim.particles[i].hash.value) for i in range(sim.N) if not math.isnan(sim.particles[i].y))
+                try:
+                    sim.move_to_com()
+                    clibrebound.reb_simulation_update_tree(ctypes.byref(sim))
+                    sim.process_messages()
+                except Exception as ex:  # noqa: BLE001
+                    allnotes.append("library error during move_to_com with a tree: %s" % str(ex)[:160])
+                hashes1 = sorted(int(sim.particles[i].hash.value) for i in range(sim.N) if not math.isnan(sim.particles[i].y))
+                L = [cfg["W"] * cfg["NR"][a] for a in range(3)]
+                outside = [i for i in range(sim.N) if any(abs(c) > L[a] / 2 for a, c in enumerate((sim.particles[i].x, sim.particles[i].y, sim.particles[i].z)))]
+                leaves = sorted(lf[2] for lf in walk(sim)[0])
+                if hashes1 != hashes0 or outside or leaves != list(range(sim.N)):
+                    allnotes.append("move_to_com with a tree (%s box): particles before %s, after %s, outside the box %s, tree leaves %s"
+                                    % (cfg["BType"], hashes0, hashes1, outside, leaves))
     print(json.dumps({"notes": allnotes[:10]}))
 
 
